@@ -46,6 +46,9 @@ func (x *Exec) execCall(f *Frame, i *ssa.Call) {
 		if fv.Fn != nil {
 			callee = fv.Fn
 			binds = fv.Bind
+		} else if x.localFuncVar(f, c.Value) && len(x.closures) > 0 {
+			x.execDispatch(f, i, fv.T)
+			return
 		} else {
 			x.execCallback(f, i)
 			return
@@ -60,6 +63,101 @@ func (x *Exec) execCall(f *Frame, i *ssa.Call) {
 	res := x.callStatic(f, callee, args, binds, c.Args, i.Pos())
 	x.bindCallResult(f, i, callee.Signature, res)
 	x.afterCallAt(f, i)
+}
+
+// localFuncVar: the called value is read from a local variable of the function under execution
+// (not a parameter, field or captured variable), so it can only hold nil or a closure made here.
+func (x *Exec) localFuncVar(f *Frame, v ssa.Value) bool {
+	u, ok := v.(*ssa.UnOp)
+	if !ok || u.Op != token.MUL {
+		if ph, ok := v.(*ssa.Phi); ok {
+			for _, e := range ph.Edges {
+				if _, isClo := e.(*ssa.MakeClosure); !isClo {
+					if c, isConst := e.(*ssa.Const); !isConst || c.Value != nil {
+						return false
+					}
+				}
+			}
+			return true
+		}
+		return false
+	}
+	a, ok := u.X.(*ssa.Alloc)
+	if !ok || a.Heap || a.Parent() != f.fn {
+		return false
+	}
+	// every store into the variable must be a closure made in this function (or nil)
+	for _, r := range *a.Referrers() {
+		if st, ok := r.(*ssa.Store); ok && st.Addr == a {
+			switch w := st.Val.(type) {
+			case *ssa.MakeClosure:
+			case *ssa.Const:
+				if w.Value != nil {
+					return false
+				}
+			default:
+				return false
+			}
+		}
+	}
+	return true
+}
+
+// execDispatch calls a function variable that holds one of the closures made by this function:
+// one guarded call per closure of a matching signature, states merged afterwards. Calling it when
+// it holds none of them (nil) is a panic obligation.
+func (x *Exec) execDispatch(f *Frame, i *ssa.Call, t Term) {
+	c := &i.Call
+	sig := c.Signature()
+	var cands []Val
+	for _, name := range x.closureOrder {
+		v := x.closures[name]
+		if types.Identical(v.Fn.Signature, sig) || sigMatchesBound(v.Fn, sig) {
+			cands = append(cands, v)
+		}
+	}
+	if len(cands) == 0 {
+		x.execCallback(f, i)
+		return
+	}
+	base := x.cur
+	var alts []Term
+	for _, cv := range cands {
+		alts = append(alts, Eq(t, cv.T))
+	}
+	if !x.noSafety() {
+		x.obligeGround(f, "nil", x.safetyTags(), base.reach, Or(alts...), "call of a function variable that holds none of the closures assigned to it", i.Pos())
+	}
+	var args []Val
+	for _, a := range c.Args {
+		args = append(args, x.val(f, a))
+	}
+	var ins []inEdge
+	var results [][]Val
+	for k, cv := range cands {
+		st := base.clone()
+		st.reach = x.b.Def(fmt.Sprintf("reach_disp%d", k), And(base.reach, Eq(t, cv.T)))
+		x.cur = st
+		res := x.callStatic(f, cv.Fn, args, cv.Bind, c.Args, i.Pos())
+		ins = append(ins, inEdge{x.cur, x.cur.reach})
+		results = append(results, res)
+	}
+	x.cur = x.mergeStates(ins, "disp_"+i.Name())
+	nres := sig.Results().Len()
+	out := make([]Val, nres)
+	for r := 0; r < nres; r++ {
+		var vals []Term
+		for k := range cands {
+			vals = append(vals, results[k][r].T)
+		}
+		out[r] = Val{T: x.iteChain(ins, vals, "dispres")}
+	}
+	x.bindCallResult(f, i, sig, out)
+	x.afterCallAt(f, i)
+}
+
+func sigMatchesBound(fn *ssa.Function, sig *types.Signature) bool {
+	return types.Identical(types.NewSignatureType(nil, nil, nil, fn.Signature.Params(), fn.Signature.Results(), fn.Signature.Variadic()), types.NewSignatureType(nil, nil, nil, sig.Params(), sig.Results(), sig.Variadic()))
 }
 
 // afterCallAt runs the contract's mid-function clauses anchored after this call instruction:
@@ -147,6 +245,14 @@ func (x *Exec) argTerms(f *Frame, args []Val, argVals []ssa.Value) []Term {
 }
 
 func (x *Exec) callStatic(f *Frame, callee *ssa.Function, args []Val, binds []Val, argVals []ssa.Value, pos token.Pos) []Val {
+	// bound method value (recv.Method used as a function): call the method on the bound receiver
+	if strings.HasPrefix(callee.Synthetic, "bound method wrapper") && len(binds) == 1 {
+		if m, ok := callee.Object().(*types.Func); ok {
+			if target := x.prog.FuncValue(m); target != nil {
+				return x.callStatic(f, target, append([]Val{binds[0]}, args...), nil, nil, pos)
+			}
+		}
+	}
 	key := relKey(callee)
 	con := x.db.Funcs[key]
 	if con != nil && !con.Inline {
